@@ -747,3 +747,14 @@ PROP = with_src(C16(), share=12, functions=["_mac_arch", "_mac_binary_formats", 
                           "Src._mac_binary_formats_translated", "Src._mac_binary_formats_eq_model",
                           "Src._parse_glibc_version_translated", "Src._parse_glibc_version_eq_model",
                           "Src._glibc_version_string_translated", "Src._glibc_version_string_eq_model"])
+
+# x6: the platform remainder — `_parse_musl_version`, both `platform_tags` of `_manylinux` / `_musllinux` (with `_is_compatible`,
+# `_have_compatible_abi`, `_is_linux_armhf/_i686`, `_get_glibc_version`), `_linux_platforms`, `mac_platforms`, `ios_platforms`,
+# `tags.platform_tags`, and `ELFFile.__init__` / `.interpreter`; the probes enter through the environment table, the
+# theorems are stated for every table that answers as the model's probe record says (Src/PlatEnv.lean, Src/ElfEnv.lean)
+X6_FUNCTIONS = ["_parse_musl_version", "_musllinux.platform_tags", "_is_compatible", "_manylinux.platform_tags",
+                "_have_compatible_abi", "_get_glibc_version", "_linux_platforms", "mac_platforms", "ios_platforms",
+                "tags.platform_tags", "ELFFile.__init__", "ELFFile.interpreter"]
+X6_MODULES = ["PkgProofs.Props.Src.PlatEnv", "PkgProofs.Props.Src.ElfEnv"]
+X6_THEOREMS = []
+PROP = with_src(PROP, share=12, functions=X6_FUNCTIONS, module=X6_MODULES, theorems=X6_THEOREMS)
